@@ -10,6 +10,8 @@ package main
 //   c37-inmemory-read-differs   a read / write / commit result differs between the two runs
 //   c37-inmemory-touched-files  the in-memory run created, modified or kept open a file
 // plus the reference-MVCC oracle of sys.go on both runs.
+// Histories larger than one memtable (automatic rotations by ensureRoomForWrite, both runs in
+// child processes): inmemvol.go.
 
 import (
 	"bytes"
@@ -106,7 +108,7 @@ func xterms(ops []string) string {
 
 func (h *hist) termM(thr int64) string {
 	return fmt.Sprintf("(HistM %s %d %s %s %d %d %d [\n  %s])", Bool(h.o.InMemory), thr, Bool(h.o.Managed), Bool(h.o.Detect),
-		h.o.NKeep, h.o.MaxLevels, h.next0, xterms(h.ops))
+		h.o.NKeep, h.o.MaxLevels, h.next0, packHex(xterms(h.ops)))
 }
 
 // ---- labels of the wrapper ----
@@ -272,9 +274,15 @@ func c37value(c *Ctx) []byte {
 	default:
 		n = c37ThrInMem - 1 - c.Rng.Intn(3) // just inside the in-memory limit
 	}
+	// a short random head and a run of one byte: case terms carry runs compressed (packHex)
 	v := make([]byte, n)
+	head, fill := c.Rng.Intn(5), byte('a'+c.Rng.Intn(26))
 	for i := range v {
-		v[i] = byte('a' + c.Rng.Intn(26))
+		if i < head {
+			v[i] = byte('a' + c.Rng.Intn(26))
+		} else {
+			v[i] = fill
+		}
 	}
 	return v
 }
@@ -527,7 +535,10 @@ func c37tail(h *hist, prefix []byte, keys [][]byte) ([]string, error) {
 }
 
 func runC37(c *Ctx) error {
-	c.Setup("Keys Spec Lsm Compact Iter Sys SysMode CorrC37", "run_case")
+	if c.Mode == "child" {
+		return c37volChild(c) // one volume history on one DB (inmemvol.go)
+	}
+	c.Setup("Keys Spec Lsm Compact Iter Sys SysMode MemRoom CorrC37", "run_case")
 	// every temporary file of this process goes below the scratch directory, which is hashed
 	scratch := os.Getenv("VERIF_SCRATCH_DIR")
 	if scratch != "" {
@@ -539,6 +550,13 @@ func runC37(c *Ctx) error {
 	for i := 0; c.nCases < c.N; i++ {
 		if i%8 == 7 {
 			if err := c37inmemOnly(c); err != nil {
+				return err
+			}
+			continue
+		}
+		if i%8 == 1 || i%8 == 5 {
+			// more data than one memtable: both runs in child processes (inmemvol.go)
+			if err := c37volume(c, i/4); err != nil {
 				return err
 			}
 			continue
